@@ -558,7 +558,9 @@ func newRequestForRetry(req *http.Request, location string) (*http.Request, erro
 		return nil, errors.New(tr.Tr.Get("refusing insecure redirect: HTTPS to HTTP"))
 	}
 
-	sameHost := req.URL.Host == newReq.URL.Host
+	// A change of scheme is a change of origin (and, with the ports left
+	// out, of port) even if the host is spelled the same.
+	sameHost := req.URL.Host == newReq.URL.Host && req.URL.Scheme == newReq.URL.Scheme
 	for key := range req.Header {
 		if key == "Authorization" {
 			if !sameHost {
